@@ -81,8 +81,24 @@ def showErr : Err → String
   | .NeedsAbundanceTracking => "err NeedsAbundanceTracking"
   | .CannotUpsampleScaled => "err CannotUpsampleScaled"
 
+/-- sketches holding more than this many hashes are answered by a digest instead of the lists (the
+large-batch family): `#<count>:<xor of the hashes>`, and for the abundances
+`#<sum>:<xor of hash * (2 * abundance + 1) mod 2^64>` -/
+def digestAbove : Nat := 200
+
+def showMins (mins : List Nat) : String :=
+  if mins.length > digestAbove then
+    "#" ++ toString mins.length ++ ":" ++ toString (mins.foldl (fun x h => x ^^^ h) 0)
+  else showNats mins
+
+def showAbunds (mins ab : List Nat) : String :=
+  if mins.length > digestAbove then
+    "#" ++ toString (ab.foldl (· + ·) 0) ++ ":"
+      ++ toString ((mins.zip ab).foldl (fun x p => x ^^^ (p.1 * (2 * p.2 + 1) % 2 ^ 64)) 0)
+  else showNats ab
+
 def showObs (mins : List Nat) (ab : Option (List Nat)) : String :=
-  "mins=" ++ showNats mins ++ " abunds=" ++ (match ab with | some l => showNats l | none => "none")
+  "mins=" ++ showMins mins ++ " abunds=" ++ (match ab with | some l => showAbunds mins l | none => "none")
 
 def SetOps.Sk.obs (s : Sk) : String := showObs s.mins s.abunds
 def SReg.obs (r : SReg) : String :=
@@ -151,7 +167,7 @@ def binop (st : St) (capi : Bool) (op : String) (r1 r2 : Nat) : St × Resp :=
     else if op == "isect" || op == "isize" then
       let m := if op == "isect" then
           match intersection st.kind a b with
-          | .ok (c, u) => "common=" ++ showNats c ++ " union=" ++ toString u
+          | .ok (c, u) => "common=" ++ showMins c ++ " union=" ++ toString u
           | .error e => showErr e
         else if capi then
           let (c, u) := capiIntersectionUnionSize a b
@@ -164,7 +180,7 @@ def binop (st : St) (capi : Bool) (op : String) (r1 r2 : Nat) : St × Resp :=
         | some e => e
         | none =>
           let (c, u) := specCommon sa sb
-          if op == "isect" then "common=" ++ showNats c ++ " union=" ++ toString u
+          if op == "isect" then "common=" ++ showMins c ++ " union=" ++ toString u
           else "common=" ++ toString c.length ++ " union=" ++ toString u
       (st, resp st m s)
     else if op == "inflate" then
@@ -409,8 +425,21 @@ def stepCore (st : St) (capi : Bool) (ws : List String) : St × Resp :=
       let m := match countCommon st.kind a b (d == "1") with
         | .ok c => "common=" ++ toString c
         | .error e => showErr e
-      -- C03 only speaks about the call without downsampling (C04 covers downsample = true)
-      let s := if d == "1" && a.scaled != b.scaled then "-" else
+      -- C03 speaks about the counts of the call without downsampling (C04 covers the counts under
+      -- downsample = true).  With downsample = true and different scaled values it still demands the
+      -- rejection of a pair that differs in ANOTHER parameter as well, with that parameter's error
+      -- (T-reject_downsample): ksize, molecule, num against scaled; the seed when the coarser
+      -- operand's ceiling is the one its scaled() maps back to (otherwise the downsampled copy has
+      -- another ceiling and MismatchScaled comes first - C04's ground).
+      let s := if d == "1" && a.scaled != b.scaled then
+          let first := if Scaled.scaledForMaxHash sa.maxHash > Scaled.scaledForMaxHash sb.maxHash then sa else sb
+          if sa.ksize != sb.ksize then "err MismatchKSizes"
+          else if sa.mol != sb.mol then "err MismatchDNAProt"
+          else if sa.maxHash == 0 || sb.maxHash == 0 then "err MismatchScaled"
+          else if sa.seed != sb.seed
+              && Scaled.maxHashForScaled (Scaled.scaledForMaxHash first.maxHash) == first.maxHash then "err MismatchSeed"
+          else "-"
+        else
         match specCompat sa sb with
         | some e => e
         | none => "common=" ++ toString (inter sa.keys sb.keys).length
